@@ -18,6 +18,12 @@ EXHAUSTIVE_BLOCKS = ["all digraphs on <=3 nodes x all labellings up to renaming 
 ASSUMPTIONS = ["networkx weakly_connected_components modelled by undirected reachability (Reach.v, proved sound and complete)",
                "node ids unique"]
 ABSENT = [99, 98]
+PARALLEL = True
+RULE += ("; LINEAGE IDS FLAGGED MISSING (validate_data with a real missing mask; the flagged node stays in the graph unlabelled): exhaustive: every digraph on "
+         "<=3 nodes x every labelling x every non-empty mask (2338 cases); 4-node digraphs x labellings x one or two flagged nodes sampled; 5-7 node graphs "
+         "with the isolated nodes flagged (stays valid) or any node flagged, fill values = ids of other lineages; validator on the filtered node list (Coq: the "
+         "same filtered list), validate_data and read_to_memory with the mask stored must agree with it")
+EXHAUSTIVE_BLOCKS.append("all digraphs on <=3 nodes x all labellings up to renaming x all non-empty missing masks")
 
 
 def generate(rng: random.Random, tier: str):
@@ -73,6 +79,61 @@ def _generate(rng: random.Random, tier: str):
             lab[x] = rng.randrange(len(comps))
         yield {"kind": "lineages", "nodes": nodes, "edges": es, "labels": [LABEL_IDS[lab[x] % len(LABEL_IDS)] for x in nodes],
                "via": "data" if rng.random() < 0.25 else "direct"}
+    yield from _generate_masked(rng, tier)
+
+
+def _generate_masked(rng: random.Random, tier: str):
+    """Lineage ids flagged missing ("mask": one flag per node).  validate_data hands validate_lineages the nodes that are NOT flagged
+    (_annotated_nodes) and ALL the edges: a flagged node with an edge becomes an id absent from the node list, so the component it lies in
+    is no lineage (documented: a lineage is a weakly connected component of the graph; a node without an id belongs to none); a flagged
+    isolated node disappears.  The label stored at a flagged position is a fill value (the label of another class or a fresh one).  The Coq
+    input is the FILTERED node list with all the edges (ILineages can express it).  Expected verdict: the components of the FULL graph."""
+    import itertools
+
+    # exhaustive: every digraph on <=3 nodes (self loops for n<=2) x every labelling up to renaming x every non-empty mask
+    for n in range(1, 4):
+        for edges in all_digraphs(n, loops=(n <= 2)):
+            for labels in set_partitions(n):
+                for mask in itertools.product([False, True], repeat=n):
+                    if any(mask):
+                        yield dict(mk(n, edges, labels), mask=list(mask), via="data" if (n <= 2 or rng.random() < 0.2) else "direct")
+    g4 = list(all_digraphs(4))
+    parts4 = list(set_partitions(4))
+    for _ in range(800 if tier == "quick" else 10000):
+        mask = [False] * 4
+        for i in rng.sample(range(4), rng.choice([1, 1, 2])):
+            mask[i] = True
+        yield dict(mk(4, rng.choice(g4), rng.choice(parts4)), mask=mask, via="data" if rng.random() < 0.3 else "direct")
+    # larger graphs: the component partition (sometimes perturbed), isolated nodes flagged (stays valid) or any node flagged
+    for _ in range(500 if tier == "quick" else 6000):
+        n = rng.choice([5, 6, 7])
+        p = rng.choice([0.08, 0.15, 0.3])
+        edges = [(a, b) for a in range(n) for b in range(n) if a != b and rng.random() < p]
+        nodes = NODE_IDS[:n]
+        es = [[nodes[a], nodes[b]] for a, b in edges]
+        comps = sorted(components(nodes, es), key=lambda cl: min(cl))
+        lab = {x: i for i, cl in enumerate(comps) for x in cl}
+        if rng.random() < 0.3:
+            lab[rng.choice(nodes)] = rng.randrange(len(comps) + 1)
+        lonely = [i for i, x in enumerate(nodes) if not any(x in e for e in es)]
+        mask = [False] * n
+        if lonely and rng.random() < 0.5:
+            for i in lonely:
+                mask[i] = rng.random() < 0.7
+        else:
+            for _k in range(rng.choice([1, 1, 2])):
+                mask[rng.randrange(n)] = True
+        labels = [LABEL_IDS[lab[x] % len(LABEL_IDS)] for x in nodes]
+        for i in range(n):
+            if mask[i] and rng.random() < 0.7:               # adversarial fill: the id of another lineage / a fresh id
+                labels[i] = rng.choice(LABEL_IDS)
+        yield {"kind": "lineages", "nodes": nodes, "edges": es, "labels": labels, "mask": mask, "via": "data" if rng.random() < 0.5 else "direct"}
+
+
+def annotated(c):
+    """(nodes, labels) restricted to the nodes whose lineage id is not flagged missing"""
+    mask = c.get("mask") or [False] * len(c["nodes"])
+    return ([x for x, m in zip(c["nodes"], mask) if not m], [l for l, m in zip(c["labels"], mask) if not m])
 
 
 def mk(n, edges, labels, extra=()):
@@ -87,8 +148,14 @@ def run_impl(c):
     nodes = np.array(c["nodes"], dtype="uint64")
     edges = np.array(c["edges"], dtype="uint64").reshape(-1, 2)
     labels = np.array(c["labels"], dtype="int64")
+    missing = None
+    a_nodes, a_labels = nodes, labels
+    if c.get("mask") is not None:
+        # the validator is given what validate_data must hand over: the nodes not flagged missing, and all the edges
+        missing = np.array(c["mask"], dtype=bool)
+        a_nodes, a_labels = np.array(annotated(c)[0], dtype="uint64"), np.array(annotated(c)[1], dtype="int64")
     try:
-        valid, errors = validate_lineages(nodes, edges, labels)
+        valid, errors = validate_lineages(a_nodes, edges, a_labels)
     except Exception as e:
         return {"exc": type(e).__name__}
     out = {"valid": bool(valid), "named": named_ids(errors, "Lineage")}
@@ -97,7 +164,7 @@ def run_impl(c):
         from geff_spec import GeffMetadata
 
         md = GeffMetadata(directed=True, node_props_metadata={}, edge_props_metadata={}, track_node_props={"lineage": "lin"})
-        g = {"metadata": md, "node_ids": nodes, "edge_ids": edges, "node_props": {"lin": {"values": labels, "missing": None}}, "edge_props": {}}
+        g = {"metadata": md, "node_ids": nodes, "edge_ids": edges, "node_props": {"lin": {"values": labels, "missing": missing}}, "edge_props": {}}
         from harness.c12 import via_store
 
         out["data_store"] = via_store(g, ValidationConfig(lineage=True))
@@ -119,7 +186,7 @@ def run_impl(c):
                 for x in cc:
                     trk[x] = k
             md2 = GeffMetadata(directed=True, node_props_metadata={}, edge_props_metadata={}, track_node_props={"tracklet": "trk", "lineage": "lin"})
-            g2 = dict(g, metadata=md2, node_props={"lin": {"values": labels, "missing": None},
+            g2 = dict(g, metadata=md2, node_props={"lin": {"values": labels, "missing": missing},
                                                    "trk": {"values": np.array([trk[x] for x in c["nodes"]], dtype="int64"), "missing": None}})
             try:
                 validate_data(g2, ValidationConfig(tracklet=True, lineage=True))
@@ -132,7 +199,7 @@ def run_impl(c):
 def coq_case(c, o):
     if "exc" in o or None in o["named"]:
         return None
-    nl = cpairs(list(zip(c["nodes"], c["labels"])))
+    nl = cpairs(list(zip(*annotated(c))))        # with a mask: the nodes not flagged missing (all the edges stay)
     return f"(ILineages {cpairs(c['edges'])} {nl}, OInvalid {clist(o['named'], cz)})"
 
 
@@ -140,7 +207,7 @@ def oracle(c, o):
     if "exc" in o:
         return Failure(c, o, f"validate_lineages raised {o['exc']}", {"why": "raises"})
     comps = set(components(c["nodes"], c["edges"]))
-    cl = classes(c["nodes"], c["labels"])
+    cl = classes(*annotated(c))                  # comps above: components of the full graph (flagged nodes stay, unlabelled)
     bad = [t for t, ns in cl.items() if frozenset(ns) not in comps]
     if o["valid"] != (not bad):
         kind = "accepts-invalid" if o["valid"] else "rejects-valid"
@@ -168,7 +235,8 @@ def nontrivial(c, o):
 
 
 def describe(c, o):
-    return f"n={len(c['nodes'])}:e={len(c['edges'])}:classes={len(set(c['labels']))}:{'valid' if o.get('valid') else 'invalid'}"
+    return (f"n={len(c['nodes'])}:e={len(c['edges'])}:classes={len(set(c['labels']))}:{'valid' if o.get('valid') else 'invalid'}"
+            + (":masked" if c.get("mask") is not None else ""))
 
 
 def search(rng, budget):
